@@ -61,7 +61,7 @@ Theorem c01_transforms_first :
      normalize_legacy tf lo_at rules amount date tfs t0 =
      normalize_legacy tf lo_at rules amount date [] (apply_transforms tf tfs t0)) /\
   (forall tf a b t, apply_transforms tf (a ++ b) t = apply_transforms tf b (apply_transforms tf a t)).
-Proof. split; [exact transforms_first_engine|split; [exact transforms_first_legacy|exact apply_transforms_app]]. Qed.
+Proof. exact transforms_first_all. Qed.
 Print Assumptions c01_transforms_first.
 
 (* normalize_merchant with a cached engine, first_match mode: m/c/s of the first categorizing rule whose condition is
@@ -94,13 +94,7 @@ Theorem c01_unknown_fallback :
      (let t := apply_transforms tf2 tfs2 t2 in find (cat_match (o_at2 (t_desc t) (t_fields t))) rules2 = None) ->
      t_desc (apply_transforms tf1 tfs1 t1) = t_desc (apply_transforms tf2 tfs2 t2) ->
      m1 = m2).
-Proof.
-  split; [exact unknown_fallback_engine|].
-  intros until i2. intros H1 H2 F1 F2 E.
-  destruct (unknown_fallback_engine _ _ _ _ _ _ _ _ _ _ H1 F1) as (-> & _).
-  destruct (unknown_fallback_engine _ _ _ _ _ _ _ _ _ _ H2 F2) as (-> & _).
-  rewrite E. reflexivity.
-Qed.
+Proof. exact unknown_fallback_both. Qed.
 Print Assumptions c01_unknown_fallback.
 
 (* ---- legacy CSV rules ---- *)
@@ -129,7 +123,7 @@ Theorem c01_legacy_irrelevance :
       find (lcat_match (lo_at (t_desc t) (t_fields t)) (upper (t_desc t)) amount date) rules <> None) ->
      normalize_legacy tf lo_at (rules ++ post) amount date tfs t0 = NRes m' c' s' i' ->
      m' = m /\ c' = c /\ s' = s).
-Proof. split; [exact normalize_legacy_irrelevance|exact normalize_legacy_later_rules]. Qed.
+Proof. exact (conj normalize_legacy_irrelevance normalize_legacy_later_rules). Qed.
 Print Assumptions c01_legacy_irrelevance.
 
 (* The property reads a legacy pattern as a regular expression (condition = re.search on the description, and the
